@@ -63,7 +63,7 @@ namespace OP2Utility::Stream
 
 
 		void SeekForward(uint64_t offset) override {
-			if (Position() + offset > sliceLength)
+			if (offset > sliceLength - Position())
 			{
 				throw std::runtime_error(
 					"Seek forward by offset of " + std::to_string(offset) + " is beyond the bounds of the stream slice."
@@ -128,7 +128,7 @@ namespace OP2Utility::Stream
 	protected:
 
 		void ReadImplementation(void* buffer, std::size_t size) override {
-			if (wrappedStream.Position() + size > startingOffset + sliceLength) {
+			if (size > sliceLength - Position()) {
 				throw std::runtime_error(
 					"Stream Read request extends beyond the bounds of the stream slice."
 					+ IdentifySource()
